@@ -45,7 +45,12 @@ def build_grid(g):
 @st.composite
 def specs(draw, tier):
     g = draw(grid_spec(tier))
-    kind = draw(st.sampled_from(["noise", "few", "few", "blobs", "blobs"] * 3 + ["bimodal"]))
+    kind = draw(st.sampled_from(["noise", "few", "few", "blobs", "blobs"] * 6 + ["bimodal", "bimodal", "long"]))
+    if kind == "long":
+        # a long 1-D image whose length sits at / next to powers of two and typical block sizes, with a tail that differs from
+        # the rest (anything that processes the cells in blocks must still see all of them)
+        n = draw(st.sampled_from([4095, 4097, 65535, 65536, 65537, 98304, 131071, 131073, 160000, 200003]))
+        g = {"family": "cart", "origin": [0.0], "shape": [n], "spacing": [gen.r6(draw(st.floats(0.25, 2, **finite)))], "periodic": [draw(st.booleans())]}
     if kind == "bimodal":  # needs enough cells to populate all 256 histogram bins
         n = draw(st.integers(40, 64))
         g = {"family": "cart", "origin": [0.0, 0.0], "shape": [n, draw(st.integers(40, 64))], "spacing": [1.0, gen.r6(draw(st.floats(0.5, 2, **finite)))], "periodic": [draw(st.booleans()), draw(st.booleans())]}
@@ -53,6 +58,8 @@ def specs(draw, tier):
     if kind == "bimodal":
         f["sep"] = draw(st.sampled_from([2.0, 2.5, 3.0]))
         f["frac"] = draw(st.sampled_from([0.2, 0.35, 0.5]))
+    if kind == "long":
+        f["tail"] = draw(st.sampled_from([3, 1000, 20000, 40000]))
     if kind == "noise":
         f["lo"], f["hi"] = sorted([draw(st.integers(-512, 512)), draw(st.integers(-512, 512))])
         if f["lo"] == f["hi"]:
@@ -67,6 +74,8 @@ def specs(draw, tier):
         f["width"] = draw(st.sampled_from([0.0, 0.5, 1.0, 2.0]))
         f["noise"] = draw(st.sampled_from([0, 0, 4, 16]))
     thr = draw(st.sampled_from(["auto", "extrema", "mean", "otsu", "number", "number"]))
+    if kind == "long":  # thresholds between the two levels only (a threshold inside the noise band would cut 10^4 clusters)
+        thr = draw(st.sampled_from(["otsu", "otsu", "auto", "mean"]))
     spec = {"grid": g, "field": f, "threshold": thr}
     if thr == "number":
         spec["t_frac"] = draw(st.sampled_from([0.0, 0.1, 0.25, 0.5, 0.5, 0.75, 1.0, -0.1, 1.1]))
@@ -87,6 +96,13 @@ def make_data(grid, f):
         lv = np.array(f["levels"], float) / Q
         idx = np.where(rng.random(shape) < f["density"], rng.integers(1, len(lv), size=shape), 0)
         return lv[idx]
+    if f["kind"] == "long":
+        n = shape[0]
+        # three exact levels, no noise (a threshold inside a noise band would cut the image into 10^4 clusters)
+        base = np.where((np.arange(n) // 4001) % 3 == 0, 1.0, 0.0)
+        tail = min(f["tail"], n // 2)
+        base[n - tail:] = 6.0  # a much brighter last stretch
+        return np.round(base * Q) / Q
     if f["kind"] == "bimodal":
         # two overlapping Gaussian populations, spatially clustered (so that droplets exist), quantised to 1/1024
         idx = np.stack(np.meshgrid(*[np.arange(n) for n in shape], indexing="ij"), axis=-1).astype(float)
